@@ -76,6 +76,8 @@ func hasMulti(cs *Case) bool {
 func (rn *runner) account(cs *Case, res *evalRes) {
 	c := rn.c
 	c.Hist["gen:"+cs.Gen]++
+	c.Hist["geth-adapter:events-delivered-adjacently"] += res.adjacent
+	c.Hist["geth-adapter:log-directly-followed-by-its-own-removal"] += res.ownRemoval
 	hasRC := false
 	for _, s := range cs.Steps {
 		c.Hist["in:"+string(s.K)]++
